@@ -139,6 +139,13 @@ def main(ctx):
             continue
         inp.sort()
         jobs.append(("mergeP", (inp, rng.choice([0, 1, 2, 5, 10]), rng.choice([0, 0, 3, 7])), 0))
+    # every 10000 boundary up to the six-digit addresses: neighbours on both sides, within reach of each other
+    for x in range(1, 12):
+        edge = x * 10000
+        for lo, hi, reach in ((edge - 1, edge, 1), (edge - 1, edge + 1, 5), (edge - 3, edge, 10), (edge - 1, edge, 0)):
+            for lim in (0, 3):
+                jobs.append(("mergeP", ([[lo, 1], [hi, 2]], reach, lim), 0))
+                jobs.append(("mergeP", ([[lo - 4, 5], [hi, 1], [hi + 2, 1]], reach, lim), 0))
     # several register banks in one input, merged ranges longer than the default transfer limits (no limit given: 1968 for
     # coils / discrete inputs, 123 for registers -- per emitted range, whatever came before it)
     for k in range(60 if ctx.quick else 1500):
